@@ -59,18 +59,19 @@ class Result:
         self.model = {}
         self.ref = {}
         self.oracle = {}
+        self.cost = {}       # id -> cost-model line (C20)
         self.errors = []     # process-level failures
 
 
 def execute(tag, cases, variant="default", force=None, mode="run", model_be="rt1", W=8,
-            want_model=True, want_ref=False, want_oracle=False, use_cache=True):
+            want_model=True, want_ref=False, want_oracle=False, use_cache=True, want_cost=False):
     """Runs `cases` (list of case tuples).  force: backend id to force through the C13 hook
        (None = leave runtime detection alone)."""
     lines = [gen.line(c) for c in cases]
     pre = []
     if force is not None:
         pre = ["B\tforce\t%d" % force]
-    key = cache_key(tag, variant, force, mode, (model_be, W, want_model, want_ref, want_oracle), lines)
+    key = cache_key(tag, variant, force, mode, (model_be, W, want_model, want_ref, want_oracle, want_cost), lines)
     cdir = os.path.join(BUILD, "cache")
     os.makedirs(cdir, exist_ok=True)
     cpath = os.path.join(cdir, key + ".pkl")
@@ -80,7 +81,8 @@ def execute(tag, cases, variant="default", force=None, mode="run", model_be="rt1
         try:
             with open(cpath, "rb") as f:
                 d = pickle.load(f)
-            res.impl, res.model, res.ref, res.oracle, res.errors = d
+            res.impl, res.model, res.ref, res.oracle, res.errors = d[:5]
+            res.cost = d[5] if len(d) > 5 else {}
             return res
         except Exception:
             pass
@@ -94,6 +96,10 @@ def execute(tag, cases, variant="default", force=None, mode="run", model_be="rt1
         cmds.append(("ref", lambda p, prev: [DRIVER, "ref", p]))
     if want_oracle and os.path.exists(DRIVER):
         cmds.append(("oracle", lambda p, prev: [DRIVER, "oracle", p, prev["impl"]]))
+    if want_cost:
+        from common import CDRIVER
+        if os.path.exists(CDRIVER):
+            cmds.append(("cost", lambda p, prev: [CDRIVER, model_be, str(W), p]))
     # the forced-backend line must lead every shard
     from common import shard
     shards = [pre + s for s in shard(lines, NPROC)]
@@ -108,5 +114,5 @@ def execute(tag, cases, variant="default", force=None, mode="run", model_be="rt1
     shutil.rmtree(work, ignore_errors=True)
     if use_cache and not res.errors:
         with open(cpath, "wb") as f:
-            pickle.dump((res.impl, res.model, res.ref, res.oracle, res.errors), f)
+            pickle.dump((res.impl, res.model, res.ref, res.oracle, res.errors, getattr(res, 'cost', {})), f)
     return res
